@@ -295,6 +295,10 @@ func (e Engine) Generate(prop, tier string, run int, seed uint64) *kernel.Scenar
 			// fault: the first or the second write of the removal fails
 			st.A["failw"] = int64(1 + r.Intn(2))
 		}
+		if prop == "C11" && op != "create" && op != "close" && kernel.NewRand(kernel.Derive(seed, "failw", len(sc.Steps))).Bool(0.04) {
+			// fault: the (first) write of a state change fails
+			st.A["failw"] = 1
+		}
 		sc.Steps = append(sc.Steps, st)
 		w.step = len(sc.Steps) - 1
 		w.do(&st)
